@@ -5,7 +5,11 @@ Python expression syntax, compiled by the engine's spec evaluator."""
 
 class Behaviour(object):
     def __init__(self, name, ghost=None, requires=(), ensures=None, raises=None, modifies=(), hints=(),
-                 split=(), calls=None, result=None, unfold_depth=1, loops=None, assumes=(), native_build=None):
+                 split=(), calls=None, result=None, unfold_depth=1, loops=None, assumes=(), native_build=None, init=None, native=None, sets=None, noreturn=False):
+        self.noreturn = noreturn                    # the function never returns normally (always raises)
+        self.sets = dict(sets or {})                # heap location -> expression: exact new value on normal exit (reference-valued fields)
+        self.init = dict(init or {})                # heap location -> expression: initial value overriding the declared field sort
+        self.native = native                        # name of a native harness (spec/harness.py) for replay / bounded runs
         self.native_build = native_build            # expression building the real arguments from ghost values (native runs)
         self.name = name
         self.ghost = dict(ghost or {})              # ghost name -> sort
@@ -24,7 +28,8 @@ class Behaviour(object):
 
 class Contract(object):
     def __init__(self, target, params=None, behaviours=None, loops=None, inline=False, result=None,
-                 fields=None, locals=None, note="", tier=1, trusted=False, **default_behaviour):
+                 fields=None, locals=None, note="", tier=1, trusted=False, dispatch=None, **default_behaviour):
+        self.dispatch = list(dispatch or [])        # [(condition expr | None, behaviour name)]: behaviour used at a call site
         self.target = target                        # "rpyc/core/brine.py::_dump_bytes"
         self.params = dict(params or {})            # name -> sort (in order of the signature)
         self.loops = dict(loops or {})              # loop ordinal -> {"invariant": [...], "havoc": {...}, "rest": name, "hints": [...]}
@@ -56,7 +61,8 @@ class Contract(object):
 class External(object):
     """library model: the contract of something outside the repository (trusted)"""
 
-    def __init__(self, name, params=None, outcomes=(), result=None, note="", ghost=None, requires=()):
+    def __init__(self, name, params=None, outcomes=(), result=None, note="", ghost=None, requires=(), defaults=None):
+        self.defaults = dict(defaults or {})
         self.name = name
         self.params = dict(params or {})
         self.result = result
